@@ -127,10 +127,9 @@ Proof. unfold begin_act. npeel nstab_set_running. apply nstab_upd_task, nkeeps_w
 Lemma nstab_ns h0 s d sh : nstab h0 s (ns s d sh). Proof. nby_eq. Qed.
 Lemma nstab_nf h0 s : nstab h0 s (nf s). Proof. nby_eq. Qed.
 
-Lemma nstab_talloc h0 s k ev : Qh h0 k -> (forall t, ntask s <= t -> k_group (tasks s t) = None) ->
-  nstab h0 s (talloc s k ev).
+Lemma nstab_talloc h0 s k ev : Qh h0 k -> nstab h0 s (talloc s k ev).
 Proof.
-  intros Hk Hun t H. unfold talloc. cbn [tasks]. unfold upd. destruct (Nat.eqb_spec t (ntask s)); [exact Hk|exact H].
+  intros Hk t H. unfold talloc. cbn [tasks]. unfold upd. destruct (Nat.eqb_spec t (ntask s)); [exact Hk|exact H].
 Qed.
 
 Lemma nstab_spawned h0 s g sf : h0 = nscope s -> nstab h0 s (spawned s g sf).
@@ -186,9 +185,9 @@ Proof.
 Qed.
 
 (* the puppet operations *)
-Lemma nstab_puppet_op h0 s0 t o : nstab h0 s0 (fst (puppet_op s0 t o)).
+Lemma nstab_puppet_op h0 s0 t o : h0 = nscope s0 -> nstab h0 s0 (fst (puppet_op s0 t o)).
 Proof.
-  unfold puppet_op. pose proof (nstab_begin h0 s0 t) as B. set (s := begin_act s0 t) in *.
+  intros Hh. unfold puppet_op. pose proof (nstab_begin h0 s0 t) as B. set (s := begin_act s0 t) in *.
   destruct o; try apply nstab_refl; (eapply nstab_trans; [exact B|]).
   - rewrite new_scope_eq. npeel_ret. nby_eq.
   - pose proof (nstab_scope_enter h0 s c t) as H. destruct (scope_enter s c t) as [s1 e]. cbn [fst] in H.
@@ -217,10 +216,10 @@ Proof.
     eapply nstab_trans; [exact T1|]. destruct (g_tasks (groups s1 g)); [|apply nstab_wof].
     rewrite new_scope_eq. cbn zeta. npeel nstab_block. npeel nstab_eq; [|reflexivity|reflexivity|reflexivity].
     npeel nstab_scope_enter. nby_eq.
-  - destruct (negb (group_active s g)); [npeel_ret; apply nstab_refl|]. rewrite spawn_task_eq. npeel_ret. apply nstab_spawned.
+  - destruct (negb (group_active s g)); [npeel_ret; apply nstab_refl|]. rewrite spawn_task_eq. npeel_ret. apply nstab_spawned. exact Hh.
   - destruct (negb (group_active s g)); [npeel_ret; apply nstab_refl|]. rewrite new_fut_eq. cbv beta iota.
     rewrite spawn_task_eq. cbv beta iota. npeel nstab_block. npeel nstab_suspend_on.
-    eapply nstab_trans; [apply (nstab_nf h0 s)|apply nstab_spawned].
+    eapply nstab_trans; [apply (nstab_nf h0 s)|apply nstab_spawned; exact Hh].
   - destruct (k_startfut (tasks s t)) as [f|]; [|npeel_ret; apply nstab_refl].
     destruct (f_st (futs s f)); npeel_ret; try apply nstab_refl. apply nstab_fc.
   - destruct (e_set _); npeel_ret; [apply nstab_refl|apply nstab_scope_cancel].
@@ -254,45 +253,24 @@ Proof.
   intros x. destruct (rec_task_fields s t raw x) as [_ [_ [_ [E4 [E5 _]]]]]. unfold Qh. now rewrite E4, E5.
 Qed.
 
-Lemma nstab_puppet_finish h0 s0 t v : Inv s0 -> idle s0 t = true -> nstab h0 s0 (fst (puppet_finish s0 t v)).
+Lemma nstab_puppet_finish h0 s0 t v : nstab h0 s0 (fst (puppet_finish s0 t v)).
 Proof.
-  intros I0 Hi. destruct (Run_begin s0 t I0 Hi) as [M [Hr Hf]]. pose proof (nstab_begin h0 s0 t) as B.
+  pose proof (nstab_begin h0 s0 t) as B.
   unfold puppet_finish. set (s := begin_act s0 t) in *. eapply nstab_trans; [exact B|].
-  destruct (k_run s (m_k s M) t Hr) as [_ [Hd _]].
   set (raw := match k_held (tasks s t) with Some e => OExc e | None => ORet v end).
-  assert (T1 : nstab h0 s (upd_task s t (tk_final (Some raw)))).
-  { split; [cbn; lia|]. intros x _. cbn [upd_task set_tasks tasks]. unfold upd.
-    destruct (Nat.eqb_spec x t) as [E|E]; [rewrite E; apply stable_final, Hf|apply tk_stable_refl]. }
+  assert (T1 : nstab h0 s (upd_task s t (tk_final (Some raw)))) by (apply nstab_upd_task; intros k; cbn; tauto).
   destruct (k_group (tasks s t)) as [g|] eqn:Eg.
-  - change (upd_task (upd_task s t (tk_final (Some raw))) t
-              match raw with
-              | ORet r => tk_hres None (Some r)
-              | OExc e => tk_hres (Some e) None
-              | OCanc e => tk_hres (Some e) None
-              end) with (rec_task s t raw).
-    pose proof (nstab_rec_task h0 s t raw Hf) as T2.
-    pose proof (nstab_event_set h0 (rec_task s t raw) (k_hevent (tasks s t))) as T3.
-    set (s3 := event_set (rec_task s t raw) (k_hevent (tasks s t))) in *.
-    assert (Hd3 : k_done (tasks s3 t) = None).
-    { unfold s3. rewrite event_set_eq. destruct (e_set _).
-      - rewrite rec_task_same. destruct raw; cbn; exact Hd.
-      - assert (H : forall l a, tasks (fold_left (fun a f => fut_complete a f (FRes 1)) l a) = tasks a).
-        { induction l as [|f l IH]; intros a; cbn [fold_left]; [reflexivity|]. now rewrite IH, fc_tasks. }
-        rewrite H. change (tasks (evset (rec_task s t raw) (k_hevent (tasks s t)))) with (tasks (rec_task s t raw)).
-        rewrite rec_task_same. destruct raw; cbn; exact Hd. }
-    pose proof (nstab_scope_exit h0 s3 (k_hscope (tasks s t)) t (k_held (tasks s t))) as T4.
-    pose proof (kframe_kstar _ _ _ _ (ks_scope_exit s3 (k_hscope (tasks s t)) t (k_held (tasks s t)))) as F4.
-    destruct (scope_exit s3 (k_hscope (tasks s t)) t (k_held (tasks s t))) as [s4 x]. cbn [fst] in *.
-    assert (Hd4 : k_done (tasks s4 t) = None).
-    { pose proof (tview_inv _ _ (fr_tv _ _ _ _ F4 t)) as V. destruct V as [_ [V _]]. now rewrite V. }
-    eapply nstab_trans; [exact T2|]. eapply nstab_trans; [exact T3|]. eapply nstab_trans; [exact T4|].
-    destruct x; apply nstab_finish_task; exact Hd4.
+  - match goal with |- context [scope_exit ?a ?b ?c ?d] => pose proof (nstab_scope_exit h0 a b c d) as T4;
+      assert (T3 : nstab h0 s a);
+      [|destruct (scope_exit a b c d) as [s4 x]] end.
+    { npeel nstab_event_set. eapply nstab_trans; [exact T1|]. apply nstab_upd_task. intros k. destruct raw; cbn; tauto. }
+    cbn [fst] in T4. eapply nstab_trans; [exact T3|]. eapply nstab_trans; [exact T4|].
+    destruct x; apply nstab_finish_task.
   - cbn [fst]. eapply nstab_trans; [exact T1|]. apply nstab_finish_task.
-    tcase t t; [cbn; exact Hd|contradiction].
 Qed.
 
 Lemma nstab_incs h0 s0 t : nstab h0 s0 (incs s0 t).
-Proof. unfold incs. npeel nstab_set_running. apply nstab_upd_task. apply nkeeps_simple. intros k. cbn. tauto. Qed.
+Proof. unfold incs. npeel nstab_set_running. apply nstab_upd_task. intros k. cbn. tauto. Qed.
 
 Lemma nstab_event_unwait h0 s e fo : nstab h0 s (event_unwait s e fo).
 Proof. destruct fo; nby_eq. Qed.
@@ -306,7 +284,7 @@ Proof.
   destruct (k_ctl (tasks s0 t)) as [| |k|f tm|g ws exc|g c exc|g child f|child c e wf|h wf|]; try apply nstab_refl;
     (eapply nstab_trans; [exact B|]).
   - destruct inc as [e|]; cbn [fst].
-    + npeel nstab_finish_task; [apply nstab_upd_task, nkeeps_started|]. tcase t t; [cbn; exact Hd|contradiction].
+    + npeel nstab_finish_task. apply nstab_upd_task, nkeeps_started.
     + npeel nstab_set_running. npeel nstab_park.
       destruct (k_group (tasks (upd_task s t (tk_started true)) t)).
       * npeel nstab_scope_enter. apply nstab_upd_task, nkeeps_started.
@@ -353,7 +331,7 @@ Proof.
   assert (T1 : nstab h0 s s1) by (unfold s1; destruct (k_cur (tasks s0 t)); [nby_eq|apply nstab_refl]).
   set (s3 := tdcore s1 t g).
   assert (T3 : nstab h0 s1 s3).
-  { unfold s3, tdcore. npeel nstab_upd_task; [nby_eq|]. intros k. unfold tk_stable, td_rec. cbn. tauto. }
+  { unfold s3, tdcore. npeel nstab_upd_task; [nby_eq|]. intros k. unfold td_rec. cbn. tauto. }
   set (s4 := match g_fut (groups s3 g) with Some f => _ | None => _ end).
   assert (T4 : nstab h0 s3 s4).
   { unfold s4. destruct (g_fut (groups s3 g)); [|apply nstab_refl]. destruct (g_tasks (groups s3 g)); [apply nstab_fc|apply nstab_refl]. }
@@ -387,17 +365,17 @@ Qed.
 Lemma nstab_new_root h0 s : nstab h0 s (fst (new_root s)).
 Proof.
   unfold new_root. cbn [fst]. npeel nstab_set_running. npeel nstab_park.
-  apply (nstab_talloc h0 s root_rec false).
+  apply (nstab_talloc h0 s root_rec false). left. reflexivity.
 Qed.
 
-Lemma N5b_wake_step h0 s t : Inv s -> In (HStep t) (ready s) -> wake_ok (pop s (HStep t)) t None.
+Lemma N5b_wake_step (h0 : nat) s t : Inv s -> In (HStep t) (ready s) -> wake_ok (pop s (HStep t)) t None.
 Proof.
   intros [M Hr] Hin. destruct (M_pop s (HStep t) M Hin) as [M1 [Hnt _]].
   destruct (k_step s (m_k s M) t Hin) as [H1 [H2 [H3 H4]]].
   constructor; auto. apply Hnt. cbn. auto.
 Qed.
 
-Lemma N5b_wake_wake h0 s t f : Inv s -> In (HWake t f) (ready s) -> wake_ok (pop s (HWake t f)) t (Some f).
+Lemma N5b_wake_wake (h0 : nat) s t f : Inv s -> In (HWake t f) (ready s) -> wake_ok (pop s (HWake t f)) t (Some f).
 Proof.
   intros [M Hr] Hin. destruct (M_pop s (HWake t f) M Hin) as [M1 [Hnt _]].
   destruct (k_wake s (m_k s M) t f Hin) as [H1 H2]. destruct (k_w1 s (m_k s M) t f H1) as [H3 [H4 [H5 [H6 H7]]]].
@@ -406,11 +384,11 @@ Qed.
 
 (* C01: stability. For every already allocated task: its group, handle scope, finished event and start future
    never change; once done / task_done-ran / coroutine-ended, always so (with the same outcome) *)
-Theorem new_task_qh h0 s o : reach s -> nstab h0 s (fst (step s o)).
+Theorem new_task_qh h0 s o : reach s -> h0 = nscope s -> nstab h0 s (fst (step s o)).
 Proof.
-  intros R. pose proof (reachable s R) as I0. unfold step. destruct (actor o) as [t|] eqn:Ea.
+  intros R Hh. pose proof (reachable s R) as I0. unfold step. destruct (actor o) as [t|] eqn:Ea.
   - destruct (idle s t) eqn:Ei; cbn [negb]; [|apply nstab_refl].
-    destruct o; try apply nstab_puppet_op. apply nstab_puppet_finish; assumption.
+    destruct o; try (apply nstab_puppet_op; exact Hh). apply nstab_puppet_finish.
   - destruct o; try apply nstab_refl.
     + apply nstab_new_root.
     + cbn [fst]. apply (nstab_kstar _ _ _ _ _ (ks_one _ _ _ _ (kp_cancel none_s none_t s t 0))).
@@ -419,8 +397,8 @@ Proof.
       apply existsb_handle in Eh. rewrite pop_eq_frame.
       assert (P : nstab h0 s (pop s h)) by nby_eq. eapply nstab_trans; [exact P|].
       destruct h as [t|t f|c|t|f tm|c tm].
-      * apply nstab_resume, N5b_wake_step; assumption.
-      * apply nstab_resume, N5b_wake_wake; assumption.
+      * apply nstab_resume, (N5b_wake_step 0); assumption.
+      * apply nstab_resume, (N5b_wake_wake 0); assumption.
       * cbn [fst]. npeel nstab_set_running. npeel nstab_deliver_top. nby_eq.
       * cbn [fst]. apply nstab_run_task_done.
       * cbn [fst]. apply nstab_fc.
